@@ -2,6 +2,7 @@ package chk
 
 import (
 	"fmt"
+	"go/types"
 
 	"golang.org/x/tools/go/ssa"
 )
@@ -69,18 +70,29 @@ func ruleSRTPendingCue(p *Prog, l *Ledger, tier string) {
 			if t, f := fieldOfAddr(st.Addr); t != "Item" || f != "Lines" {
 				continue
 			}
+			// the shortening may live in a helper that takes the lines and returns what is left of them
+			viaHelper := false
+			if c, ok := st.Val.(*ssa.Call); ok {
+				if sc := c.Call.StaticCallee(); sc != nil && fnPkg(sc) == p.LibSSA && shortensLinesInLoop(sc) {
+					viaHelper = true
+				}
+			}
 			sl, ok := st.Val.(*ssa.Slice)
-			if !ok || sl.High == nil {
+			if !viaHelper && (!ok || sl.High == nil) {
 				continue
+			}
+			extra := 0
+			if viaHelper {
+				extra = 1 // the helper's own loop
 			}
 			switch {
 			case main.blocks[b]:
 				inAny++
-				if depth(b) >= 2 {
+				if depth(b)+extra >= 2 {
 					inIter++
 					posIn = p.Pos(st.Pos())
 				}
-			case after[b] && depth(b) >= 1:
+			case after[b] && depth(b)+extra >= 1:
 				afterIter++
 				posAfter = p.Pos(st.Pos())
 			}
@@ -98,4 +110,29 @@ func ruleSRTPendingCue(p *Prog, l *Ledger, tier string) {
 		l.Fail(rule, name, keyB, blockPos(p, main.header), name+": nothing after the scanner loop shortens Item.Lines: blank lines at the end of the file stay as empty lines of the last cue")
 	}
 	l.Min(rule, 2, 2)
+}
+
+// shortensLinesInLoop: h has a loop in which a []Line value is cut (x[:k]) and the result of h is a []Line.
+func shortensLinesInLoop(h *ssa.Function) bool {
+	isLines := func(t types.Type) bool {
+		sl, ok := t.Underlying().(*types.Slice)
+		if !ok {
+			return false
+		}
+		nt, ok := sl.Elem().(*types.Named)
+		return ok && nt.Obj().Name() == "Line"
+	}
+	if h.Signature.Results().Len() != 1 || !isLines(h.Signature.Results().At(0).Type()) {
+		return false
+	}
+	for _, li := range loopsOf(h) {
+		for b := range li.blocks {
+			for _, ins := range b.Instrs {
+				if sl, ok := ins.(*ssa.Slice); ok && sl.High != nil && isLines(sl.Type()) {
+					return true
+				}
+			}
+		}
+	}
+	return false
 }
